@@ -300,15 +300,17 @@ def _parse_block(lines):
                 cur = opts["contract"]
             elif kw == "body-prefix:":
                 cur = opts["body_prefix"]
-            elif kw == "loop":
+            elif kw in ("loop", "loop?"):
                 k = int(rest.rstrip(":"))
                 cur = opts["loops"].setdefault(k, [])
-            elif kw in ("before", "after"):
+                if kw == "loop?":
+                    opts.setdefault("loops_optional", set()).add(k)
+            elif kw in ("before", "after", "before?", "after?"):
                 m = re.match(r"^/(.*)/\s*(?:#(\d+))?\s*:$", rest)
                 if not m:
                     raise UnitError("bad anchor: " + ln)
                 cur = []
-                opts[kw].append((m.group(1), int(m.group(2) or 0), cur))
+                opts[kw.rstrip("?")].append((m.group(1), int(m.group(2) or 0), cur, kw.endswith("?")))
             else:
                 raise UnitError("unknown option: " + ln)
         else:
@@ -547,14 +549,20 @@ def build_fn(repo, file, path, opts, as_item=False):
     sites = _loop_sites(body, bm)
     for k, lines in opts["loops"].items():
         if k >= len(sites):
+            if k in opts.get("loops_optional", ()):
+                log.append(("note", "loop #%d absent: its invariant was not spliced (obligations of the fn decide)" % k, 1))
+                continue
             raise LostAnchor("loop #%d not found in %s :: %s (has %d loops)" % (k, file, path, len(sites)))
         inserts.append((sites[k], "\n" + "\n".join(lines) + "\n", 1))
     for kind in ("before", "after"):
-        for (pat, k, lines) in opts[kind]:
+        for (pat, k, lines, optional) in opts[kind]:
             ms = list(re.finditer(pat, bm))
             if not ms:
                 # try on raw text (patterns mentioning string contents)
                 ms = list(re.finditer(pat, body))
+            if k >= len(ms) and optional:
+                log.append(("note", "optional ghost anchor /%s/ absent: hint not spliced" % pat, 1))
+                continue
             if k >= len(ms):
                 raise LostAnchor("anchor /%s/ #%d not found in %s :: %s" % (pat, k, file, path))
             if kind == "before":
